@@ -11,7 +11,7 @@ from vlib import ToolError, log
 TAG_PROP = {
     "C17v_panic": "C17", "C17v_ok_but_blocked": "C17", "C17v_err_but_free": "C17",
     "C11r_missing_file": "C11", "C11r_missing_decl": "C11", "C11x_touched_other": "C11",
-    "C05w_malformed": "C05", "C06l_lost": "C06", "confluence": None,   # confluence: C05 in same-file slices, else C06
+    "C05w_malformed": "C05", "C06l_lost": "C06", "C03i_dangling_import": "C03", "confluence": None,   # confluence: C05 in same-file slices, else C06
 }
 
 SAMEFILE = ["Alpha", "Al1", "Al<i32>", "Al2", "AlphaBeta", "Beta", "alpha2"]
